@@ -1,7 +1,7 @@
 (* C03 — the statements of Properties/C03.v, assembled from the proof files. *)
 From Coq Require Import List Arith NArith Bool Lia ZifyN ZifyNat ZifyBool.
 From FS Require Import Sx Model.Path Model.Stat Model.Validator Model.Fs Model.DiskWriterFs.
-From FS Require Import Proofs.Lex Proofs.PathP Proofs.FsP Proofs.FsReachP Proofs.RecvP Proofs.FsWfP.
+From FS Require Import Proofs.Lex Proofs.PathP Proofs.FsP Proofs.FsReachP Proofs.RecvP Proofs.FsWfP Proofs.RecvOldP.
 Import ListNotations.
 Open Scope N_scope.
 Open Scope bool_scope.
@@ -28,6 +28,22 @@ Theorem receiver_contained_merge :
 Proof.
   intros f root D dl tmps pks j W Ht Hu Hc. unfold recv_fs_prefix.
   apply (step_outside D TAll). apply (recv_merge_step D root f tmps dl W Ht pks (Some j) Hu Hc).
+Qed.
+
+(* both settings of ReceiveOpt.Merge: without Merge the old content of dest is walked first and
+   diffed against the stream (entries the stream does not name are removed, entries it names
+   with the same metadata are left alone); Proofs/RecvOldP.v carries the invariant of that
+   listing through the loop *)
+Theorem receiver_contained_proof :
+  forall (f : fs) (root D : N) (dl merge : bool) (tmps : list bytes) (pks : list packet) (j : nat),
+    wf D f -> (forall t, tmpname tmps t -> okname t) -> tmp_unused D f tmps ->
+    Forall (clean_packet tmps) pks ->
+    outside_unchanged D f (recv_fs_prefix f root D dl merge tmps pks j).
+Proof.
+  intros f root D dl merge tmps pks j W Ht Hu Hc. destruct merge.
+  - apply receiver_contained_merge; auto.
+  - unfold recv_fs_prefix. apply (step_outside D TAll).
+    apply (recv_nomerge_step D root f tmps dl W Ht Hu pks (Some j) Hc).
 Qed.
 
 (* the same with the hypotheses in executable form *)
